@@ -85,7 +85,9 @@ def hashFam (f key : Nat) : Nat :=
   | 2 => w64 (key * 72057594037927936)              -- high byte only (key << 56)
   | 3 => key                                        -- identity
   | 4 => w64 (key * 11400714819323198485)           -- multiplicative (Fibonacci hashing)
-  | _ => w64 ((key % 2) * 9223372036854775808 + key / 2 % 4)   -- two clusters
+  | 5 => w64 ((key % 2) * 9223372036854775808 + key / 2 % 4)   -- two clusters
+  | 6 => w64 (127 * 144115188075855872 + key)                   -- top seven bits all ones (short hash 127 for every key)
+  | _ => w64 ((if key % 3 = 0 then 127 else key % 128) * 144115188075855872 + key / 3)   -- every third key has short hash 127
 
 /-! ### bucket level -/
 def emptyBucket (sp : Spec) : Bucket := ⟨[], sp.fullFrom == 0 && !sp.unlimited, (0, 0)⟩
